@@ -25,7 +25,10 @@ macro_rules! props {
 props!(
     ("C01", c01),
     ("C02", c02),
+    ("C03", c03),
+    ("C05", c05),
     ("C06", c06),
+    ("C07", c07),
     ("C08", c08),
     ("C09", c09),
     ("C10", c10),
